@@ -88,9 +88,12 @@ def run(ctx):
         def fail(expected, got, note, ops_=hist):
             ctx.fail('HighJumpCompetition', H.fmt_ops(ops_), expected, got, note=note, replay_py=H.replay_py(ops_))
         # 1. action-log replay
-        c2 = c.from_actions()
-        if H.snap(c2) != H.snap(c):
-            fail('from_actions() reproduces ' + H.snap(c), H.snap(c2), 'log replay differs')
+        try:
+            c2 = c.from_actions()
+            if H.snap(c2) != H.snap(c):
+                fail('from_actions() reproduces ' + H.snap(c), H.snap(c2), 'log replay differs')
+        except Exception as e:
+            fail('from_actions() reproduces ' + H.snap(c), '%s: %s' % (type(e).__name__, e), 'log replay raised')
         # 2. card export / import
         try:
             m = c.to_matrix()
